@@ -50,6 +50,8 @@ inductive Op where
   | dropshard (id : Nat)
   /-- `Client.PrecreateShardGroups(from, to)` -/
   | pre (from_ to : Int)
+  /-- `Client.TruncateShardGroups(t)` -/
+  | trunc (t : Int)
 deriving Repr
 
 inductive Obs where
@@ -171,6 +173,7 @@ def step (s : State) : Op → State × Obs
   | .setdel db rp id at_ => ({ s with data := setDeletedAt s.data db rp id at_ }, .ok)
   | .dropshard id => ({ s with data := dropShard s.data id modelNow }, .ok)
   | .pre a b => ({ s with data := precreateShardGroups s.data a b }, .ok)
+  | .trunc t => ({ s with data := truncateShardGroups s.data t }, .ok)
 
 /-- the model's trace on a list of operations -/
 def run : State → List Op → List (Op × Obs)
